@@ -75,6 +75,21 @@ def cases(tier, seed):
             specs.append({"id": "c3:" + ",".join(p[1] for p in perm), "exprs": exprs})
     for x, y in progs.numeric_pairs(tier):
         specs.append({"id": "d:%s,%s" % (al.expr_id(x), al.expr_id(y)), "exprs": [[o, x, y] for o in progs.OPS4]})
+    # (e) curved tier: float data, degree 2 and 3
+    qn = ["c16", "c8", "c4", "c16b", "c8s", "lens", "rsq", "fsq", "ftri"] if tier == "quick" else al.Q_ORDER
+    qs = [progs.L("Q." + q) for q in qn]
+    for i, x in enumerate(qs):
+        for y in qs[i + 1 :] if tier == "quick" else qs:
+            if x == y:
+                continue
+            exprs = [[o, x, y] for o in progs.OPS4]
+            if tier == "thorough":
+                yc = progs.L(y[1] + "@cw")
+                exprs += [["|", x, yc], ["&", x, yc]]
+            specs.append({"id": "e:%s,%s" % (x[1], y[1]), "exprs": exprs, "cost": 20})
+    # (g) rings nested through islands
+    specs.append({"id": "g:nested", "exprs": progs.nested_exprs()})
+    specs.append({"id": "g:nested-laws", "exprs": progs.nested_laws(), "deg": True})
     # (f) singleton rows and degenerate tier
     core = [progs.L("P.sqA#int"), progs.L("P.triA#int@cw"), ["PC", "hollow", "int"], ["PC", "two", "int"], ["PC", "xtwo", "int"]]
     if tier == "thorough":
@@ -92,7 +107,7 @@ def judge(e, deg, stats, hist):
     """Returns list of (tag, message) failures for one expression."""
     leaves, sets, curves, poly = oc.leaves_info(e)
     if not poly:
-        return None
+        return judge_curved(e, sets, curves, stats, hist)
     gp = rg.regions_general_position(sets) if len(sets) > 1 else True
     if not gp and not deg:
         return "excluded"
@@ -132,6 +147,75 @@ def judge(e, deg, stats, hist):
     return fails
 
 
+def curved_general_position(sets, size):
+    """No control-polygon junction of one leaf within 1e-3*size of another leaf's boundary."""
+    eps = size / 1000
+    for i in range(len(sets)):
+        for j in range(len(sets)):
+            if i == j:
+                continue
+            for a in sets[i]:
+                for sg in a.segs:
+                    for b in sets[j]:
+                        if b.near(sg[0], eps):
+                            return False
+    return True
+
+
+def judge_curved(e, sets, curves, stats, hist):
+    size = max(c.size() for c in curves)
+    if not curved_general_position(sets, size):
+        return "excluded"
+    st, R = oc.run_expr(e, 240)
+    if st == "timeout":
+        return [("hang", "operator does not return within 240 s")]
+    if st == "raise":
+        return [("raise", "raises " + exc_str(R))]
+    kind = rg.kind_of(R)
+    hist["result:" + kind] = hist.get("result:" + kind, 0) + 1
+    hist["curved"] = hist.get("curved", 0) + 1
+    stats["sigs"].add(hash(rg.rep_sig(R, with_cache=False)))
+    fails = []
+    model = al.model_eval(e)
+    Rm = rg.interpret(R)
+    # result boundary lies on the leaf boundaries (5 points per segment, 1e-5*size)
+    for c in Rm.curves():
+        for sg in c.segs:
+            for k in range(5):
+                q = rg.bez_eval(sg, F(k, 4))
+                if not any(cv.near(q, size / 10**5) for cv in curves):
+                    fails.append(("boundary", "result boundary point %s is off every operand boundary" % oc.fmt_pt(q)))
+                    break
+            if fails:
+                break
+        if fails:
+            break
+    bx = (min(c.box()[0] for c in curves), min(c.box()[1] for c in curves), max(c.box()[2] for c in curves), max(c.box()[3] for c in curves))
+    nj = 0
+    for i in range(31):
+        for j in range(31):
+            w = (bx[0] + (bx[2] - bx[0]) * F(2 * i - 1, 58) + size / 977, bx[1] + (bx[3] - bx[1]) * F(2 * j - 1, 58) + size / 1013)
+            if any(c.near(w, size * 3 / 100) for c in curves):
+                continue
+            exp = model.contains(w)
+            if exp == rg.ON:
+                continue
+            nj += 1
+            got = Rm.contains(w, size / 10**6)
+            if got != exp:
+                fails.append(("membership", "point %s should be %s the result but is %s (reference reading of the returned shape)" % (oc.fmt_pt(w), exp, got)))
+                break
+            q = (float(w[0]), float(w[1]))
+            st, val = oc.call_limited(lambda: q in R, 60)
+            if st != "ok" or bool(val) != (exp == rg.IN):
+                fails.append(("membership", "`%s in result` is %r, the point is %s" % (oc.fmt_pt(w), val if st == "ok" else st, exp)))
+                break
+        if any(t == "membership" for t, _ in fails):
+            break
+    stats["witnesses"] = stats.get("witnesses", 0) + nj
+    return fails
+
+
 def run_case(spec):
     deg = spec.get("deg", False)
     stats = {"sigs": set()}
@@ -155,7 +239,10 @@ def run_case(spec):
             for j in range(i + 1, len(sets)):
                 for a in sets[i]:
                     for b in sets[j]:
-                        ncross += len(rg.poly_crossings(a, b))
+                        if a.is_poly and b.is_poly:
+                            ncross += len(rg.poly_crossings(a, b))
+                        else:
+                            ncross += sum(len(rg.bez_bez_crossings(sa, sb, tol=F(1, 10**6))) for sa in a.segs for sb in b.segs)
         hist["crossings:%s" % (ncross if ncross < 10 else "10+")] = hist.get("crossings:%s" % (ncross if ncross < 10 else "10+"), 0) + 1
         if ncross:
             nontrivial.append(eid)
